@@ -1,4 +1,7 @@
-"""C18 rational approximation -- units ratio_farey, ratio_simplest, float_error_bounds.  Only units that fully verify are listed.
+"""C18 rational approximation -- units ratio_farey, ratio_simplest, float_error_bounds, float_error_bounds_halfeven.
+The annotated copies carry the code AFTER the fixes proposed in /verif/proposed_fixes/S1..S6 (each contract below was first
+found violated on the unfixed tree, natively reproduced, then the exclusion was removed and the unit re-verified on the
+patched tree).
 
 ratio_farey (contracts/units/ratio_farey.rs), rational/src/simplify.rs `impl RBig`:
   farey_neighbors(x, limit) -> (lo, hi)   farey_nb: 1 <= lo.den, hi.den <= limit, hi.num*lo.den - lo.num*hi.den == 1,
@@ -6,64 +9,56 @@ ratio_farey (contracts/units/ratio_farey.rs), rational/src/simplify.rs `impl RBi
                                           denominator <= limit lies strictly between lo and hi (lemma_farey_neighbours)
   next_up / next_down(limit)              is_next_up / is_next_down: denominator <= limit, strictly above / below self, and
                                           every fraction p/q with q <= limit strictly above / below self is >= / <= the
-                                          result (= the adjacent element of the Farey sequence of order limit)
+                                          result (= the adjacent element of the Farey sequence of order limit); for EVERY
+                                          limit >= 1 (fix S2: nudge 1/(limit^2+1); before it an integer with limit == 1
+                                          tripped farey_neighbors' debug assertion)
   nearest(limit)                          Exact(self) iff self.den <= limit; otherwise Inexact(v, s) with v the closer one of
                                           (next_down, next_up) (is_nearest_pick; a tie goes to next_down) and
                                           s == Positive <=> v > self (sign of v - self, as in the doc example; the doc
                                           sentence "sign of self - self.nearest()" contradicts its own example)
   and the helpers Repr::{one, neg_one, split_at_point}, RBig::split_at_point (own annotated copies with the stronger
   contract trunc*den + fract.num == num, proper, same sign, canonical fractional part).
-  EXCLUDED REGION (genuine defect, debug builds only): next_up / next_down of an INTEGER with limit == 1 call
-  farey_neighbors(1/1 resp. -1/1, 1), violating its debug assertion `x.denominator() > limit` (natively:
-  RBig::from(3).next_up(&UBig::ONE) panics with debug assertions, returns 4 in release).  Precondition
-  `!(limit == 1 && self.den == 1)`; limit != 0 is the `total` reading of panic_divide_by_0.
+  limit != 0 is the `total` reading of panic_divide_by_0.
 
-ratio_simplest (contracts/units/ratio_simplest.rs): `Repr::simplest_in`, `RBig::simplest_in`:
+ratio_simplest (contracts/units/ratio_simplest.rs): `Repr::simplest_in`, `RBig::simplest_in`, all end points:
   is_simplest_in: the result is STRICTLY between the end points (either order) and every fraction p/s strictly between
   them has s >= ret.den and |p| >= |ret.num| (hence no smaller denominator, nor the same denominator with a smaller
   numerator magnitude): membership AND optimality, through the continued-fraction invariant cf_inv (unimodular map of
   the current interval onto the original one, lemma_cross_det).  Equal end points: that number (documented).
   lower < 0 < upper: 0.  RBig::simplest_in additionally returns the canonical form.
-  EXCLUDED REGION (genuine defect): one end point zero and the other NEGATIVE -- the sign test treats 0 as positive and
-  returns 0, which is not strictly inside (natively: RBig::simplest_in(0, -1/2) == 0, expected -1/3).
+  (fix S1: a zero end point takes the sign of the other one; before it simplest_in(0, -1/2) == 0.)
   Lowering rule D18 (loop with break value) and the D11b extensions were added for this unit.
 
-float_error_bounds (contracts/units/float_error_bounds.rs): float/src/round.rs `impl ErrorBounds for mode::{Zero, Away, Up,
-  Down, HalfAway}` + the real FBig::{ulp, precision, repr, new}, Repr::{is_zero, sign, is_infinite, digits}:
-  eb_post: for f = m*ulp (m = significand scaled to `precision` digits, ulp = B^(exponent + digits - precision)) the returned
-  (L, R, incl_L, incl_R) are l2, r2 in {0, 1, 2} half-ulps such that FOR ALL rationals X/D:
-  round_def(mode, m*D + X, D, m)  <=>  -l2/2 <(=) X/D <(=) r2/2 with the inclusion flags (the exact set of reals that round to f
-  on the grid of f); precision == 0: (0, 0, true, true) for Zero / HalfAway.
-  DOMAIN (eb_domain): even base, non-zero f with digits <= precision, exponent arithmetic inside isize, and
-  EXCLUDED REGIONS (genuine defects, natively reproduced through RBig::simplest_from_float):
-   * f a power of the base (|significand| == B^(digits-1)): the interval toward zero is ulp/(2B) resp. ulp/B wide, the code
-     reports ulp/2 resp. ulp (FBig<HalfAway,10> 1e3 with precision 2 -> 950; FBig<Up,10> 1e3 p=2 -> 901, which rounds to 910);
-   * precision == 0 for Away / Up / Down: f.ulp() panics although the trait documents (ZERO, ZERO, true, true);
-   * Away, f == 0 with precision > 0: reports (ulp, 0, false, true) instead of (0, 0, true, true) (`&&` for `||`).
-  HalfEven is in unit float_error_bounds_halfeven, NOT REGISTERED: its contract fails on the unchanged tree
-  (`incl = significand.bit(0)` is inverted: FBig<HalfEven,10> 0.13 p=2 -> simplest_from_float == 1/8, which rounds to 0.12).
+float_error_bounds + float_error_bounds_halfeven: float/src/round.rs `impl ErrorBounds for mode::{Zero, Away, Up, Down,
+  HalfAway}` resp. `HalfEven`, the helpers is_power_of_base / ulp_towards_zero (fix S4) + the real FBig::{ulp, precision,
+  repr, new}, Repr::{is_zero, sign, is_infinite, digits}:
+  eb_post: f = m*ulp (m = significand scaled to `precision` digits, ulp = B^(exponent + digits - precision)); g = B when f is
+  a power of the base (the numbers below it are spaced ulp/B), else 1.  The returned (L, R, incl_L, incl_R) are l2, r2
+  halves of ulp/g such that FOR ALL rationals X/D:  "y = f + (X/D)*ulp/g rounds to f" (round_def on the grid of spacing ulp
+  when |y| >= |f|, on the grid of spacing ulp/g below)  <=>  -l2/2 <(=) X/D <(=) r2/2 with the inclusion flags.
+  precision == 0: (0, 0, true, true) for all six modes (fix S5); Away: f == 0 gives (0, 0, true, true) (fix S5).
+  DOMAIN (eb_domain): even base (for an odd base half an ulp is not representable, the code rounds it up), non-zero f with
+  digits <= precision and a normalized significand (documented invariant of float Repr), exponent arithmetic inside isize.
+  (fix S3: HalfEven parity taken from the significand at full precision; fix S4: side towards zero of a power of the base.)
 
-Not under contract: simplest_from_f32 / simplest_from_f64 (f32/f64 operations) -- triaged natively: for |f| >= 2^24 (f32) /
-2^53 (f64) (decoded exponent >= 1, denominator 1) the search interval is f +- 1/2 instead of f +- ulp/2, so f itself is
-returned although simpler integers convert back (simplest_from_f32(16777220.0) == 16777220 but 16777219 -> 16777220.0f32
-by ties-to-even; simplest_from_f32(33554436.0) == 33554436 but 33554435 -> 33554436.0f32;
-simplest_from_f64(9007199254740996.0) likewise); below a power of two the interval is
-twice too wide (no input with a wrong result found); the `to_bits() & 1 == 0` end-point inclusion is right for
-ties-to-even but can never change the result (an end point always has a larger denominator than f, which is inside).
-RBig::simplest_from_float: glue over error_bounds / simplest_in / is_simpler_than, not under contract.
+Not under contract: simplest_from_f32 / simplest_from_f64 (f32/f64 operations; fix S6 is checked by an independent native
+oracle in proposed_fixes/S6/test.rs: rounding interval from the neighbouring floats), RBig::simplest_from_float (glue over
+error_bounds / simplest_in / is_simpler_than).
+Observed and NOT fixed here (other properties): RBig::to_float rounds twice (29/20 -> 2 for HalfAway, 1 digit);
+RBig::to_f32 double rounding (DESIGN 11.4).
 
 Trusted base beyond lib/bigstub.rs, lib/ratio_types.rs, lib/ratio2_stubs.rs, lib/ratio2_cmp_stubs.rs:
- contracts/lib/farey_stubs.rs  &IBig + &IBig, &UBig + &UBig, UBig::sqr, UBig <<= usize exact; Clone for UBig/IBig/RBig keeps the
-   value; DivRem<&UBig> for &IBig truncating (divisor != 0); PartialOrd for Repr = order of the cross products for positive
-   denominators (PROVED as repr_cmp in unit ratio_cmp), unspecified otherwise; RBig + RBig, &RBig + &RBig, RBig - RBig,
-   IBig + RBig: exact value (cross-multiplied), denominator >= 1, canonical operands give a canonical result (restated from
-   what units ratio_ops / ratio_int_ops PROVE for the same macro arms; axioms ax_rbig_sum / ax_rbig_diff / ax_int_plus_rbig);
-   Approximation enum mirrored.
+ contracts/lib/farey_stubs.rs  &IBig + &IBig, &UBig + &UBig, UBig + UBig, UBig::sqr, UBig <<= usize exact; Clone for
+   UBig/IBig/RBig keeps the value; DivRem<&UBig> for &IBig truncating (divisor != 0); PartialOrd for Repr = order of the cross
+   products for positive denominators (PROVED as repr_cmp in unit ratio_cmp), unspecified otherwise; RBig + RBig,
+   &RBig + &RBig, RBig - RBig, IBig + RBig: exact value (cross-multiplied), denominator >= 1, canonical operands give a
+   canonical result (restated from what units ratio_ops / ratio_int_ops PROVE for the same macro arms; axioms ax_rbig_sum /
+   ax_rbig_diff / ax_int_plus_rbig); Approximation enum mirrored.
  contracts/lib/simplest_stubs.rs  core::mem::{replace, take}; Default for IBig == 0; -IBig, &IBig * &IBig, IBig * &IBig,
    IBig += IBig exact; DivRem<&IBig> for IBig truncating for a positive divisor; Sign * Repr multiplies the numerator by +-1;
    Ord for Repr (as PartialOrd); Repr::abs (3-line body transcribed: Verus rejects `mut self`).
  contracts/lib/ebounds_stubs.rs  FBig::ZERO == (0, 0, precision 0); Clone for FBig field-wise; Copy/Clone for Context;
-   panic_unlimited_precision unreachable (`total` reading).
+   IBig::is_one, IBig::NEG_ONE == -1; panic_unlimited_precision unreachable (`total` reading).
 """
 VERUS = {
     'ratio_farey': {'file': 'ratio_farey.rs', 'w32': False},
@@ -74,12 +69,8 @@ VERUS = {
 
 PROP_UNITS = {
     'C18': {'verus': ['ratio_farey', 'float_error_bounds', 'float_error_bounds_halfeven', 'ratio_simplest'],
-            'undecided': ['next_up / next_down of an integer with limit == 1: excluded from the contract (debug-build '
-                          'assertion failure in farey_neighbors, release result correct)',
-                          'simplest_in with one end point zero and the other negative: excluded (returns 0, not strictly inside)',
-                          'ErrorBounds::error_bounds: proved on the uniform grid of f for Zero/Away/Up/Down/HalfAway, even base, '
-                          'f non-zero and not a power of the base; HalfEven fails its contract (inverted parity) and is not registered; '
-                          'powers of the base, precision 0 (Away/Up/Down) and Away at zero are excluded defect regions',
-                          'simplest_from_f32 / simplest_from_f64 / simplest_from_float: not under contract (native triage in '
-                          'the fragment docstring: interval f +- 1/2 instead of f +- ulp/2 for |f| >= 2^24 resp. 2^53)']},
+            'undecided': ['ErrorBounds::error_bounds: proved for an even base and a non-zero f with a normalized significand '
+                          '(zero and odd bases are outside the model)',
+                          'simplest_from_f32 / simplest_from_f64 / simplest_from_float: not under contract (f32/f64 code; the '
+                          'interval logic after fix S6 is checked by a native oracle test only)']},
 }
